@@ -143,7 +143,8 @@ func keys(m map[string]bool) []string {
 }
 
 // execEngine runs e once on the given tape and never lets a panic of the
-// harness itself escape unnoticed.
+// harness itself escape unnoticed. In race builds a data-race report written
+// by the race detector during the execution is a violation of its own.
 func execEngine(e *engine, tape *simrt.Tape, seed uint64, tier string, tracing bool) (x *xctx, v *violation) {
 	x = newX(tape, seed, tier)
 	x.tracing = tracing
@@ -151,9 +152,69 @@ func execEngine(e *engine, tape *simrt.Tape, seed uint64, tier string, tracing b
 		if r := recover(); r != nil {
 			v = violf("harness-panic", "panic outside simulated tasks: %v\n%s", r, debug.Stack())
 		}
+		if rv := takeRaceReports(); rv != nil && (v == nil || strings.HasPrefix(rv.Class, "data-race")) {
+			v = rv
+		}
 	}()
 	v = e.run(x)
 	return
+}
+
+var raceLogOff int64
+
+// takeRaceReports returns a violation if the race detector wrote a report
+// since the last call (GORACE log_path is set by the orchestrator).
+func takeRaceReports() *violation {
+	prefix := os.Getenv("VERIF_RACELOG")
+	if prefix == "" || !simrt.RaceBuild {
+		return nil
+	}
+	data, err := os.ReadFile(fmt.Sprintf("%s.%d", prefix, os.Getpid()))
+	if err != nil || int64(len(data)) <= raceLogOff {
+		return nil
+	}
+	fresh := string(data[raceLogOff:])
+	raceLogOff = int64(len(data))
+	i := strings.Index(fresh, "WARNING: DATA RACE")
+	if i < 0 {
+		return nil
+	}
+	rep := fresh[i:]
+	if j := strings.Index(rep, "=================="); j > 0 {
+		rep = rep[:j]
+	}
+	// Signature: the innermost frame of each of the two accesses.
+	var tops []string
+	harnessOnly := true
+	lines := strings.Split(rep, "\n")
+	for k := 0; k+1 < len(lines); k++ {
+		l := lines[k]
+		if strings.HasPrefix(l, "Write at ") || strings.HasPrefix(l, "Read at ") || strings.HasPrefix(l, "Previous write at ") || strings.HasPrefix(l, "Previous read at ") ||
+			strings.HasPrefix(l, "Atomic write at") || strings.HasPrefix(l, "Previous atomic write at") || strings.HasPrefix(l, "Atomic read at") || strings.HasPrefix(l, "Previous atomic read at") {
+			// first non-runtime frame
+			for m := k + 1; m+1 < len(lines) && strings.HasPrefix(lines[m], "  "); m += 2 {
+				fn := strings.TrimSpace(lines[m])
+				if strings.HasPrefix(fn, "runtime.") || strings.HasPrefix(fn, "internal/") || strings.HasPrefix(fn, "sync.") || strings.HasPrefix(fn, "sync/atomic.") {
+					continue
+				}
+				fn = strings.TrimSuffix(fn, "()")
+				if p := strings.LastIndex(fn, "/"); p >= 0 {
+					fn = fn[p+1:]
+				}
+				tops = append(tops, fn)
+				if !strings.Contains(fn, "verifsim") && !strings.Contains(lines[m+1], "verif_") {
+					harnessOnly = false
+				}
+				break
+			}
+		}
+	}
+	sort.Strings(tops)
+	class := "data-race:" + strings.Join(tops, "|")
+	if harnessOnly && len(tops) > 0 {
+		class = "harness-race:" + strings.Join(tops, "|")
+	}
+	return &violation{Class: class, Detail: rep}
 }
 
 func mkRecord(e *engine, seed uint64, x *xctx, v *violation, wall time.Duration) *record {
@@ -350,7 +411,8 @@ func TestVerifWorker(t *testing.T) {
 		r.Trace = x.trace
 		r.Tape = x.t.Used()
 		enc.Encode(r)
-		return
+		out.Sync()
+		os.Exit(0)
 	}
 	var first, count uint64 = 1, 1
 	if s := os.Getenv("VERIF_SEEDS"); s != "" {
@@ -377,13 +439,17 @@ func TestVerifWorker(t *testing.T) {
 			viols++
 			r.Tape = x.t.Used()
 			min := r.Tape
-			if os.Getenv("VERIF_NOSHRINK") == "" && viols <= 3 {
+			if os.Getenv("VERIF_NOSHRINK") == "" && viols <= 3 && !strings.Contains(v.Class, "-race:") {
 				min, r.Shrunk = shrink(e, s, tier, r.Tape, v.Class, 400, time.Now().Add(60*time.Second))
 			}
 			r.MinTape = min
 			// Re-run the minimised tape with tracing for the replay file.
 			x2, v2 := execEngine(e, simrt.ReplayTape(min), s, tier, true)
-			if v2 != nil && v2.Class == v.Class {
+			if strings.Contains(v.Class, "-race:") {
+				// The race detector reports a racy pair once per process: the
+				// re-execution cannot see it again. Keep the original run.
+				r.MinTape = r.Tape
+			} else if v2 != nil && v2.Class == v.Class {
 				r.Trace = x2.trace
 				r.Viol = v2
 				r2 := mkRecord(e, s, x2, v2, 0)
@@ -394,6 +460,13 @@ func TestVerifWorker(t *testing.T) {
 		}
 		enc.Encode(r)
 	}
+	// In race builds package testing fails the test when the detector fired;
+	// race reports are already recorded as violations of their seeds.
+	if f, ok := interface{}(out).(*os.File); ok {
+		f.Sync()
+		f.Close()
+	}
+	os.Exit(0)
 }
 
 // ---------- simulated process ----------
